@@ -24,7 +24,15 @@ Mk(b, incl, kinds, subs, cstr, comp) ==
     [builder |-> b, incl |-> incl, kinds |-> kinds, subs |-> subs, cstr |-> cstr, comp |-> comp,
      subvals |-> SubV, aval |-> AV, tval |-> TV,
      gsub |-> "none", fsub |-> "none", consts |-> <<>>, symorder |-> <<>>,
-     gval |-> Q(61), gsubval |-> Q(67), gconst |-> Q(71), fsubval |-> Q(73), fconst |-> Q(79)]
+     gval |-> Q(61), gsubval |-> Q(67), gconst |-> Q(71), fsubval |-> Q(73), fconst |-> Q(79),
+     qval |-> Q(83)]
+
+\* rate constants with two unique keys and explicit defaults; substitution of the first / second key
+CfgUk2(n) == { Mk(b, incl, kinds, subs, FALSE, FALSE) :
+                 b \in {"get_odesys", "create_odesys"}, incl \in BOOLEAN,
+                 kinds \in { Uniform(n, "ma_uk2"), Alternate(n, "ma_uk2", "str"), Alternate(n, "ma_uk", "ma_uk2") },
+                 subs \in { Uniform(n, "none"), FirstOnly(n, "num", "none"), FirstOnly(n, "num2", "none"),
+                            Uniform(n, "num"), Alternate(n, "num", "num2") } }
 
 \* parameter keys: substitution x constants object (get_odesys)
 ConstSets == { <<>>, <<"g">>, <<"feedratio">>, <<"g", "feedratio">> }
@@ -37,7 +45,10 @@ CfgConst(n) == { [Mk("get_odesys", incl, kinds, subs, cstr, FALSE)
                    cstr \in BOOLEAN, gs \in {"none", "num", "expr"}, fs \in {"none", "num"}, cs \in ConstSets }
                 \cup { Mk("create_odesys", FALSE, kinds, Uniform(n, "none"), cstr, FALSE) :
                          kinds \in { Uniform(n, "ma_pk"), Alternate(n, "str", "ma_pk") }, cstr \in BOOLEAN }
-CfgConstQ(n) == { cf \in CfgConst(n) : cf.kinds # Alternate(n, "ma_pk", "ma_uk") \/ n = 1 }
+CfgConstQ(n) == { cf \in CfgConst(n) : (cf.kinds # Alternate(n, "ma_pk", "ma_uk") \/ n = 1)
+                                        /\ cf.subs = Uniform(n, "none")
+                                        /\ (~cf.incl \/ cf.kinds = Uniform(n, "ma_pk"))
+                                        /\ cf.consts # <<"feedratio">> }
 \* a smaller family for the wider systems of the thorough tier
 CfgConstFew(n) == { cf \in CfgConst(n) : cf.incl = FALSE /\ cf.kinds \in { Uniform(n, "ma_pk"), Alternate(n, "str", "ma_pk") }
                                           /\ cf.subs = Uniform(n, "none") /\ cf.consts \in { <<>>, <<"g", "feedratio">> } }
@@ -78,4 +89,8 @@ CompDef == [s \in AllSpecies |->
                 [] s = "D" -> (0 :> 1 @@ 3 :> 1)]
 Cat4 == { Inst(Shapes[i], 0) : i \in {3, 8, 11, 15} }
 Cat3 == { Inst(Shapes[i], 0) : i \in {3, 8, 15} }
+CfgAllUk2(n) == CfgAll(n) \cup CfgUk2(n)
+CfgMix(n) == CfgSym(n) \cup CfgFewBoth(n)
+CfgMixQ(n) == { cf \in CfgSym(n) : cf.subs = Uniform(n, "none") /\ cf.kinds # Uniform(n, "ma_num")
+                                      /\ cf.symorder \in {subst, Rev(subst)} } \cup CfgFewCstr(n)
 =============================================================================
